@@ -23,6 +23,7 @@ class Checker:
         self.samples = []
         self.explanation = ""
         self.notes = []
+        self.floor_misses = []
 
     # ------------------------------------------------------------------ record
     def ob(self, rule, construct, ok, detail="", loc="", nontrivial=True, undecided=False):
@@ -41,11 +42,11 @@ class Checker:
     def floor(self, rule, count, minimum, what=""):
         """vacuity guard: fewer rule instances than confirmed by hand => the analysis is
         broken (exit 2), never a silent pass"""
-        from .model import AnalysisError
         self.extra.setdefault("rule_instances", {})[rule] = {"found": count, "floor": minimum}
         if count < minimum:
-            raise AnalysisError(f"rule {rule}: only {count} instance(s) of {what or rule} found, "
-                                f"floor is {minimum} (anchor vanished or analysis blind)")
+            self.floor_misses.append(
+                f"rule {rule}: only {count} instance(s) of {what or rule} found, floor is "
+                f"{minimum} (anchor vanished or analysis blind)")
 
     def assume(self, text):
         if text not in self.assumptions:
@@ -60,6 +61,10 @@ class Checker:
 
     # ------------------------------------------------------------------ finish
     def finish(self, replay=None, write=True):
+        if self.floor_misses and not any(o["status"] == "violation" for o in self.obligations):
+            # a rule that matched (almost) nothing and reported nothing: never a silent pass
+            from .model import AnalysisError
+            raise AnalysisError("; ".join(self.floor_misses))
         known = load_known()
         kf = [k for k in known.get("findings", []) if k.get("property") == self.pid]
         viol, kn = [], []
